@@ -327,7 +327,9 @@ func Atlas() []*spec.Program {
 		// besides the real keys, near-miss keys which must not match anything: bare field names, paths
 		// without the root, other letter case, prefixes
 		cfg.RequiredFields = []string{"Flags.Req", "Flags.All", "Leaf.A", "Val", "L1.B", "flags.comp", "Flags.Re"}
-		cfg.ComputedFields = []string{"Flags.Comp", "Flags.All", "Flags.CompPm", "Flags.L1.B", "Flags.Ls", "Sens", "L2.A", "Flags.L1"+".", "Leaf"}
+		// ("Leaf.C": computed by the message-qualified key on a nested message, no explicit plan modifiers: the default
+		// UseStateForUnknown applies at every occurrence; "Flags.L1.A": by path, at one occurrence)
+		cfg.ComputedFields = []string{"Flags.Comp", "Flags.All", "Flags.CompPm", "Flags.L1.B", "Flags.L1.A", "Leaf.C", "Flags.Ls", "Sens", "L2.A", "Flags.L1"+".", "Leaf"}
 		cfg.SensitiveFields = []string{"Flags.Sens", "Flags.All", "Leaf.C", "Req", "Flags.Ls.", "FLAGS.VAL"}
 		cfg.UseStateForUnknownByDefault = true
 		// excluded fields in the middle of their messages: the fields declared after them keep their own comments
